@@ -730,6 +730,17 @@ class C11(QueryFamily):
                 c['sel'].append(['var', missing[0]])
             else:
                 c['sel'][0] = ['var', missing[0]]
+        if rng.random() < 0.15 and not any(t[0] == 'nest' for t in c['sel']):
+            # ONE expression object is the bare boolean condition of the body (alone, or the left-most conjunct) and a field of the head
+            k0 = rng.choice(keys)
+            flag = ['map', ['f', gen_query.F[rng.choice(['f', 'f', 'a', 'n', 's'])]], ['var', k0]]
+            rest = g.cond(rng.randint(0, 1)) if rng.random() < 0.5 else None
+            c['cond'] = ['truth', flag] if rest is None else ['and', ['truth', flag], rest, 'fn']
+            c['sel'] = [t for t in c['sel'] if t != flag][:3] + [flag]
+            rng.shuffle(c['sel'])
+            c['same_object'] = flag
+            for o in c['heap']:
+                o[5] = rng.random() < 0.5
         c['binders'] = [['var', k] for k in keys]
         c['form'] = 'infer'
         c['infer'] = True
